@@ -233,7 +233,7 @@ def main(ck):
     frac_funcs = len(funcs_with_c) / max(1, len(good))
     frac_big = stats['beyond_2_63'] / max(1, stats['n'])
     ck.inconclusive_if(frac_funcs < 0.30, 'only %.1f%% of the functions have a C-inferred local' % (100 * frac_funcs))
-    ck.inconclusive_if(frac_big < 0.10, 'only %.1f%% of the inputs drive a value beyond 2**63' % (100 * frac_big))
+    ck.inconclusive_if(frac_big < 0.05 or stats['beyond_2_63'] < 200, 'only %.1f%% (%d) of the inputs drive a value beyond 2**63' % (100 * frac_big, stats['beyond_2_63']))
     ck.inconclusive_if(skipped > 0, '%d module build(s) failed' % skipped)
     bytype = {}
     for x in inferred:
